@@ -413,6 +413,21 @@ def case_setunits(ctx, case):
     ans = kv(ctx.ask(f"c15.setunits {TOL} {' '.join(args)} | {impl}"))
     ctx.count('setunits', 'raises' if impl == 'ERR' else ('aniso' if is_aniso(spec) else 'ok'))
     ctx.corr('ok', ans.get('corr'), f"units setter vs model for {spec!r}: impl={impl} model={ans.get('model')}", case)
+    if n is not None:
+        # the neuron carries the unit it was given (pint's reading of the spelling is the reference)
+        want = []
+        for a in (args * 3 if len(args) == 1 else args):
+            if a == 'N':
+                want.append((Fraction(1), True))
+            else:
+                m, _, e = a[2:].partition('@')
+                if a.startswith('n:'):
+                    want.append((Fraction(m), True))
+                else:
+                    want.append((Fraction(m) * (1 if e == 'D' else Fraction(10) ** int(e)), e == 'D'))
+        got, gd = units_phys(n)
+        ok = len(want) == 3 and all(w[1] == gd and abs(g - w[0]) <= abs(w[0]) / 2 ** TOL for g, w in zip(got, want))
+        ctx.oracle(ok, f'{CLS[case["neuron"]["k"]]}(…, units={spec!r}).units == {n.units!r}: not the unit given', case)
     grp = case.get('group')
     if grp and n is not None:
         ref = build(dict(case['neuron'], units=None), units=unit_obj(SPELLINGS[grp][0]))
@@ -697,6 +712,8 @@ def result_sig(fn, res):
         return ('fin', np.isfinite(v).tolist(), sorted(map(int, res.index)))
     if fn in ('resample', 'prune_twigs_exact'):
         return ('n', res.n_nodes)
+    if fn == 'heal':      # which fragment's root survives is incidental: compare the undirected skeleton
+        return ('uedges', sorted(tuple(sorted(e)) for e in nodes_sig(res) if e[1] >= 0), sorted(e[0] for e in nodes_sig(res)))
     return ('nodes', nodes_sig(res))
 
 
